@@ -12,6 +12,7 @@ import (
 	"encoding/json"
 	"fmt"
 	"os"
+	"os/signal"
 	"path/filepath"
 	"runtime"
 	"strconv"
@@ -79,6 +80,14 @@ func cacheSet(args []string) {
 		fatal("%v", err)
 	}
 	b := loadBundle(args[2], id)
+	// VERIF_FSIZE_LIMIT=<bytes>: writes beyond this file size fail with EFBIG after a PARTIAL write (fault inside the write step)
+	if lim := os.Getenv("VERIF_FSIZE_LIMIT"); lim != "" {
+		n, _ := strconv.ParseUint(lim, 10, 64)
+		signal.Ignore(syscall.SIGXFSZ)
+		if err := syscall.Setrlimit(syscall.RLIMIT_FSIZE, &syscall.Rlimit{Cur: n, Max: n}); err != nil {
+			fatal("setrlimit: %v", err)
+		}
+	}
 	if os.Getenv("VERIF_READY_FILE") != "" {
 		os.WriteFile(os.Getenv("VERIF_READY_FILE"), []byte("ready"), 0o644)
 	}
